@@ -1,5 +1,6 @@
 import PgBifrost.Driver.Ledger
 import PgBifrost.Driver.Batcher
+import PgBifrost.Driver.BatcherMon
 import PgBifrost.Driver.Filter
 import PgBifrost.Driver.Partitioner
 /-! `bfmodel`: line-protocol driver for the executable models (core Lean only, so it links).
@@ -11,6 +12,7 @@ structure DriverState where
   ledgermon : Driver.Ledger.MonState := {}
   batcher : Driver.Batcher.DState := {}
   batch : Driver.Batcher.BState := {}
+  batchermon : Driver.BatcherMon.MState := {}
   filter : Driver.Filter.DState := ⟨false, false, []⟩
   partitioner : Driver.Partitioner.DState := {}
 
@@ -19,6 +21,7 @@ def dispatch (st : DriverState) (line : String) : DriverState × String :=
   | "ledger" :: args => let (s, out) := Driver.Ledger.handle st.ledger args; ({ st with ledger := s }, out)
   | "ledgermon" :: args => let (s, out) := Driver.Ledger.monHandle st.ledgermon args; ({ st with ledgermon := s }, out)
   | "batcher" :: args => let (s, out) := Driver.Batcher.handle st.batcher args; ({ st with batcher := s }, out)
+  | "batchermon" :: args => let (s, out) := Driver.BatcherMon.handle st.batchermon args; ({ st with batchermon := s }, out)
   | "batch" :: args => let (s, out) := Driver.Batcher.batchHandle st.batch args; ({ st with batch := s }, out)
   | "filter" :: args => let (s, out) := Driver.Filter.handle st.filter args; ({ st with filter := s }, out)
   | "partitioner" :: args => let (s, out) := Driver.Partitioner.handle st.partitioner args; ({ st with partitioner := s }, out)
